@@ -317,18 +317,18 @@ class Scheduler:
 
     # -- the scheduling point ------------------------------------------
     def point(self, pred=None, what='', interruptible=False, wake_at=None,
-              force_switch=False, prefer=None, urgent=False):
+              force_switch=False, prefer=None, urgent=False, force_pick=None):
         # line events raised while the scheduler itself runs code of the
         # library (predicates, hooks) must not re-enter the scheduler
         self.busy = True
         try:
             return self._point(pred, what, interruptible, wake_at,
-                               force_switch, prefer, urgent)
+                               force_switch, prefer, urgent, force_pick)
         finally:
             self.busy = False
 
     def _point(self, pred, what, interruptible, wake_at, force_switch,
-               prefer, urgent):
+               prefer, urgent, force_pick=None):
         c = self.cur
         if self.aborting:
             raise SchedAbort()
@@ -351,7 +351,8 @@ class Scheduler:
         if force_switch and nxt is c:
             others = [t for t in self._enabled() if t is not c]
             if others:
-                nxt = others[self.step % len(others)]
+                k = self.step if force_pick is None else force_pick
+                nxt = others[k % len(others)]
         if prefer is not None and prefer.alive and nxt is not None and (
                 prefer.pred is None or prefer.pred()):
             nxt = prefer
@@ -852,12 +853,34 @@ class LinePreempter:
     reachable.  Only lines run by controlled threads count."""
 
     TOOL = 3
+    # "dense" mode: every executed line inside the classes that guard shared
+    # state with a lock becomes an ordinary scheduling point (the policy
+    # decides whether to switch), so generated schedules interleave threads
+    # INSIDE those critical regions
+    DENSE = ('CountCallbackInvoker.', 'TransferCoordinator.',
+             'TransferCoordinatorController.', 'TaskSemaphore.',
+             'SlidingWindowSemaphore.', 'DeferQueue.', 'LeakyBucket.',
+             'ConsumptionScheduler.', 'BandwidthRateTracker.',
+             'SubmissionTask._wait', 'Task._wait', 'TransferMonitor.',
+             'BaseTransferFuture.', 'TransferFuture.', 'StreamReaderProgress.',
+             'DownloadOutputManager.', 'DownloadNonSeekableOutputManager.')
 
-    def __init__(self, sched, at, files=None, count=False):
+    def __init__(self, sched, at, files=None, count=False, dense=False):
         self.sched = sched
         self.files = files
         self.count = count
-        self.at = set(int(x) for x in at)
+        self.dense = bool(dense)
+        self.ndense = 0
+        if dense:
+            sched.has_line_preemption = True
+        # entries: n (switch to a step-dependent other thread) or [n, k]
+        # (switch to the k-th other enabled thread)
+        self.at = {}
+        for x in at:
+            if isinstance(x, (list, tuple)):
+                self.at[int(x[0])] = int(x[1])
+            else:
+                self.at[int(x)] = None
         self.n = 0
         self.active = False
         if self.at:
@@ -865,7 +888,7 @@ class LinePreempter:
 
     def __enter__(self):
         import sys
-        if (not self.at and not self.count) or \
+        if (not self.at and not self.count and not self.dense) or \
                 not hasattr(sys, 'monitoring'):
             return self
         mon = sys.monitoring
@@ -894,7 +917,11 @@ class LinePreempter:
             owner.n += 1
             if owner.n in owner.at:
                 sched.point(None, f'line:{os.path.basename(code.co_filename)}'
-                                  f':{line}', force_switch=True)
+                                  f':{line}', force_switch=True,
+                            force_pick=owner.at[owner.n])
+            elif owner.dense and code.co_qualname.startswith(owner.DENSE):
+                owner.ndense += 1
+                sched.point(None, f'dline:{code.co_qualname}:{line}')
             return None
 
         mon.register_callback(self.TOOL, mon.events.LINE, on_line)
